@@ -263,7 +263,7 @@ def audit_coverage(fb, ctx):
     unin = {(a["file"], a["name"]) for a in tab["members"]}
     nobody = {(a["file"], a["name"]) for a in tab.get("not_analysed", [])}
     have = set()
-    for f in fb.functions(valid_only=True):
+    for f in fb.functions(valid_only=True, raw=True):
         have.add(f.pattern)
     missing = []
     total = 0
